@@ -98,10 +98,15 @@ def cases(tier, seed):
     # Cantera part
     for ri, rec_ in enumerate(["HRR", "ENT", "SRi", "SDi", "RRi", "USER_S"]):
         for ki, kept in enumerate([None, "density", "temp Zmix", "Zmix density", "Y(O2) temp"]):
-            if tier == "quick" and ki >= 3 and ri % 2:
-                continue
-            out.append({"kind": "cantera", "recipe": rec_, "kept": kept, "seed": seed, "w": 40,
-                        "layout": (ri + ki) % 3, "pressure": [1.0, 5.0][(ri + ki) % 2]})
+            if tier == "quick":
+                if ki >= 3 and ri % 2:
+                    continue
+                out.append({"kind": "cantera", "recipe": rec_, "kept": kept, "seed": seed, "w": 40,
+                            "layout": (ri + ki) % 3, "pressure": [1.0, 5.0][(ri + ki) % 2]})
+            else:
+                for lay in range(3):
+                    for pr in (1.0, 5.0):
+                        out.append({"kind": "cantera", "recipe": rec_, "kept": kept, "seed": seed, "w": 40, "layout": lay, "pressure": pr})
     return out
 
 
